@@ -131,6 +131,10 @@ class Recorder(object):
             return 42
         if v == 'dict':
             return self.new({'from': who}, 'ctx:' + who)
+        if v == 'emptydict':
+            return self.new({}, 'ctx:' + who)
+        if v == 'emptylist':
+            return self.new([], 'ctx:' + who)
         if v == 'excobj':
             # an exception INSTANCE handed on as a value (a caught error given to the page renderer): a context like any other
             return self.new(LookupError('returned as a value by %s, not raised' % who), 'ctx:' + who)
@@ -346,7 +350,7 @@ class OnionModel(object):
             return ('resp', self.new('resp:' + who), who, spec.get('status', 202 if v == 'falsyresp' else 200))
         if v.startswith('http:'):
             return ('http', self.new('exc:' + v), v[5:], spec.get('breaking', True))
-        if v in ('dict', 'excobj'):
+        if v in ('dict', 'excobj', 'emptydict', 'emptylist'):
             return ('ctx', self.new('ctx:' + who), who, None)
         if v == 'list':
             return ('nonresp', self.new('list:' + who), who, None)
